@@ -763,7 +763,7 @@ func (e *env) runFileFlip(cs Case) {
 	desc := fmt.Sprintf("bit %d of the file flipped (byte %d %q -> %q)", cs.Bit, cs.Bit/8, f.JSON[cs.Bit/8], data[cs.Bit/8])
 	if same {
 		if o.panicked != nil || o.err != nil {
-			e.violate(cs, fmt.Sprintf("fileflip:unchanged-fields-rejected:bit%d", cs.Bit), "%s leaves cipherData, nonce and salt unchanged but Decrypt fails: err=%v panic=%v", desc, o.err, o.panicked)
+			e.violate(cs, "fileflip:unchanged-fields-rejected:"+e.ents[cs.E].Name+":"+e.pws[cs.P].Name, "%s leaves cipherData, nonce and salt unchanged but Decrypt fails: err=%v panic=%v", desc, o.err, o.panicked)
 			return
 		}
 		if e.checkKeyStore(cs, "fileflip", o.ks, f.Entropy) {
@@ -1006,11 +1006,18 @@ func init() {
 			need("flip_evals_cipherData", 1)
 			need("flip_evals_nonce", 96)
 			need("flip_evals_salt", 128)
-			need("tamper_rejected_flip", 1)
 			need("length_evals", 1)
 			need("fileflip_evals", 1)
 			need("path_evals", 1000)
-			if len(m.Violations) == 0 {
+			// outcome guards only make sense when nothing but the (independent) wrong-nonce-length panic was reported
+			other := 0
+			for _, v := range m.Violations {
+				if v.Key != "C19:decrypt-panic:nonce-length-not-12" {
+					other++
+				}
+			}
+			if other == 0 {
+				need("tamper_rejected_flip", 1)
 				need("roundtrip_ok", 60)
 				need("manager_ok", 60)
 				need("wrongpw_rejected", 60*5)
